@@ -115,7 +115,7 @@ PROPS = {
         suites=[dict(suite="writer", n_quick=3000, n_thorough=100000, what="random histories of the exported CodeWriter methods: buffer, indent level, mappings"),
                 dict(suite="print", n_quick=2000, n_thorough=50000, what="trees x compiler configurations: code",
                      projection=[(r" v=\d+ names=.*$", ""), (r" nomap$", "")])],
-        oracle_n_quick=600, oracle_n_thorough=20000,
+        oracle_n_quick=600, oracle_n_thorough=20000, oracle_n_search=3000,
         explanation="C06 (layout clauses): C06_semi_only, C06_indent_only.",
         open_statements=["C06_same_tree (pretty output re-parses to the compact tree)", "C06_idempotent"],
     ),
@@ -206,6 +206,17 @@ PROPS = {
         oracle_n_quick=1500, oracle_n_thorough=50000,
         explanation="C05: C05_token_ids, C05_duplicate_refused, C05_role_sets, C05_register_effect, C05_infix_like_builtin, C05_prefix_like_builtin, C05_postfix_call_level.",
         open_statements=["grouping of operators registered at levels 1, 2, 9..13 (no built-in binary operator of that level to compare with)"],
+    ),
+    "C12": dict(
+        design_ref="DESIGN.md 4 (C12)",
+        level_text="Coq theorem (causality of the one-token-lookahead parser, any mode / interceptors / operators): if a token list agrees with an accepted one on its first k tokens, every error reported for it - in particular the first - is located no earlier than token k-1, the last intact token before the corruption point. Together with C10 (an unterminated string or backtick literal is an ILLEGAL token, so truncation inside a literal is always reported) and C02 (the parser accepts the grammar). The clause 'a corrupted text that is not valid JavaScript is rejected' is explored by the oracle with node 20 as reference parser over every single-token deletion, separator removal and truncation of generated programs; the recorded findings KF6, KF7, KF9, KF11-KF16 are the shapes of invalid text xjs accepts (soundness w.r.t. the relaxed grammar GrammarLax.v is being proved).",
+        level_note="Trusted: Coq kernel, translator xjs2v, extraction, harness/driver correspondence (parse suite with token-level mutations). node 20 only in the search oracle. 'Valid JavaScript' in theorems means Grammar.v / GrammarLax.v, not an external parser.",
+        technique="Coq proof (lockstep simulation of two parser runs with different fuels) + model/implementation correspondence; reference-engine oracle as search",
+        suites=[dict(suite="parse", n_quick=3000, n_thorough=100000, what="sources incl. token-level mutations x 4 modes: tree, errors with ranges, flag"),
+                dict(suite="lex", n_quick=2000, n_thorough=100000, what="unterminated literals etc.: all token fields")],
+        oracle_n_quick=150, oracle_n_thorough=5000, oracle_n_search=600,
+        explanation="C12: C12_error_not_early.",
+        open_statements=["C12_sound (accepted without error => in the relaxed grammar GrammarLax.v)", "C12_corruption_detected as its contrapositive"],
     ),
 }
 
